@@ -315,3 +315,37 @@ m('c15-outputs-from-inputs', 'C15', SP, "            source=process_class.spec()
 m('c15-sub-rules-swapped', 'C15', PO, "                portnamespace.absorb(port, sub_exclude, sub_include)", "                portnamespace.absorb(port, sub_include, sub_exclude)", 'fire', 'absorb')
 m('c15-leftover-options-silently-dropped', 'C15', PO, "        if namespace_options:\n            raise ValueError(\n                f'the namespace_options {list(namespace_options.keys())}, is not a supported PortNamespace property'\n            )\n", "", 'fire', 'absorb')
 m('c15-silent-prefix-inline', 'C15', PO, "                prefix = f'{port_name}{self.NAMESPACE_SEPARATOR}'\n                if include and not any(rule == port_name or rule.startswith(prefix) for rule in include):", "                if include and not any(rule == port_name or rule.startswith(port_name + self.NAMESPACE_SEPARATOR) for rule in include):", 'silent')
+
+# ------------------------------------------------------------------ C16
+m('c16-intents-swapped', 'C16', P, "        if intent == process_comms.Intent.PLAY:\n            return self._schedule_rpc(self.play)\n        if intent == process_comms.Intent.PAUSE:", "        if intent == process_comms.Intent.PAUSE:\n            return self._schedule_rpc(self.play)\n        if intent == process_comms.Intent.PLAY:", 'fire', 'message_receive')
+m('c16-from-to-swapped', 'C16', P, "            subject = f'state_changed.{from_label}.{self.state.value}'", "            subject = f'state_changed.{self.state.value}.{from_label}'", 'fire', 'on_entered')
+m('c16-timeout-not-tolerated', 'C16', P, "            except kiwipy.TimeoutError:\n                message = 'Process<%s>: sending broadcast of state change from %s to %s timed out'\n                self.logger.warning(message, self.pid, from_label, self.state.value)\n", "", 'fire', 'on_entered')
+m('c16-cleanup-not-registered', 'C16', P, "                self.add_cleanup(functools.partial(self._communicator.remove_rpc_subscriber, identifier))\n", "                pass\n", 'fire', 'init')
+m('c16-kill-text-dropped-rpc', 'C16', P, "        if intent == process_comms.Intent.KILL:\n            return self._schedule_rpc(self.kill, msg_text=msg.get(process_comms.MESSAGE_TEXT_KEY, None))", "        if intent == process_comms.Intent.KILL:\n            return self._schedule_rpc(self.kill)", 'fire', 'message_receive')
+m('c16-broadcast-kill-direct', 'C16', P, "        if subject == process_comms.Intent.KILL:\n            return self._schedule_rpc(self.kill, msg_text=msg.get(process_comms.MESSAGE_TEXT_KEY, None))\n        return None", "        if subject == process_comms.Intent.KILL:\n            return self._schedule_rpc(self.pause, msg_text=msg.get(process_comms.MESSAGE_TEXT_KEY, None))\n        return None", 'fire', 'broadcast_receive')
+m('c16-sender-missing', 'C16', P, "self._communicator.broadcast_send(body=None, sender=self.pid, subject=subject)", "self._communicator.broadcast_send(body=None, sender=None, subject=subject)", 'fire', 'on_entered')
+m('c16-builder-wrong-intent', 'C16', PC, "        return {\n            INTENT_KEY: Intent.PAUSE,\n            MESSAGE_TEXT_KEY: text,\n        }", "        return {\n            INTENT_KEY: Intent.PLAY,\n            MESSAGE_TEXT_KEY: text,\n        }", 'fire', 'MessageBuilder.pause')
+m('c16-controller-wrong-message', 'C16', PC, "        msg = MessageBuilder.kill(text=msg_text)\n        return self._communicator.rpc_send(pid, msg)", "        msg = MessageBuilder.pause(text=msg_text)\n        return self._communicator.rpc_send(pid, msg)", 'fire', 'kill_process')
+m('c16-filter-drops-kill', 'C16', P, "subject=re.compile(r'^(?!state_changed).*')", "subject=re.compile(r'^(?!state_changed|kill).*')", 'fire', 'init')
+m('c16-loop-communicator-drops-arg', 'C16', CO, "        return self._communicator.broadcast_send(body, sender, subject, correlation_id)", "        return self._communicator.broadcast_send(body, sender, subject)", 'fire', 'broadcast_send')
+m('c16-announce-only-terminal', 'C16', P, "        if self._communicator and isinstance(self.state, enum.Enum):", "        if self._communicator and isinstance(self.state, enum.Enum) and self.has_terminated():", 'fire', 'on_entered')
+m('c16-unknown-intent-ignored', 'C16', P, "        # Didn't match any known intents\n        raise RuntimeError('Unknown intent')", "        # Didn't match any known intents\n        return None", 'fire', 'message_receive')
+m('c16-silent-filter-without-exclusion', 'C16', P, "subject=re.compile(r'^(?!state_changed).*')", "subject=re.compile(r'.*')", 'silent', None, 'rejecting state_changed is an optimisation')
+m('c16-silent-log-text', 'C16', P, "            self.logger.info('Process<%s>: Broadcasting state change: %s', self.pid, subject)", "            self.logger.debug('Process<%s>: broadcasting: %s', self.pid, subject)", 'silent')
+
+# ------------------------------------------------------------------ C17
+m('c17-rejection-guard-dropped', 'C17', PC, "        if persist and not self._persister:\n            raise communications.TaskRejected('Cannot persist process, no persister')\n\n        if init_args is None:\n            init_args = ()\n        if init_kwargs is None:\n            init_kwargs = {}\n\n        proc_class = self._loader.load_object(process_class)\n        proc = proc_class(*init_args, **init_kwargs)\n        if persist and self._persister is not None:\n            self._persister.save_checkpoint(proc)\n\n        if nowait:",
+  "        if init_args is None:\n            init_args = ()\n        if init_kwargs is None:\n            init_kwargs = {}\n\n        proc_class = self._loader.load_object(process_class)\n        proc = proc_class(*init_args, **init_kwargs)\n        if persist and self._persister is not None:\n            self._persister.save_checkpoint(proc)\n\n        if nowait:", 'fire', '_launch')
+m('c17-create-runs', 'C17', PC, "            self._persister.save_checkpoint(proc)\n\n        return proc.pid", "            self._persister.save_checkpoint(proc)\n\n        asyncio.ensure_future(proc.step_until_terminated())\n        return proc.pid", 'fire', '_create')
+m('c17-continue-ignores-tag', 'C17', PC, "        saved_state = self._persister.load_checkpoint(pid, tag)", "        saved_state = self._persister.load_checkpoint(pid)", 'fire', '_continue')
+m('c17-body-key-renamed', 'C17', PC, "msg_body = {TASK_KEY: CONTINUE_TASK, TASK_ARGS: {PID_KEY: pid, NOWAIT_KEY: nowait, TAG_KEY: tag}}", "msg_body = {TASK_KEY: CONTINUE_TASK, TASK_ARGS: {PID_KEY: pid, NOWAIT_KEY: nowait, 'checkpoint': tag}}", 'fire', 'create_continue_body')
+m('c17-dispatch-swapped', 'C17', PC, "        if task_type == CONTINUE_TASK:\n            return await self._continue(communicator, **task.get(TASK_ARGS, {}))\n        if task_type == CREATE_TASK:\n            return await self._create(communicator, **task.get(TASK_ARGS, {}))", "        if task_type == CREATE_TASK:\n            return await self._launch(communicator, nowait=True, **task.get(TASK_ARGS, {}))\n        if task_type == CONTINUE_TASK:\n            return await self._continue(communicator, **task.get(TASK_ARGS, {}))", 'fire', '__call__')
+m('c17-unknown-task-launches', 'C17', PC, "        raise communications.TaskRejected\n", "        return None\n", 'fire', '__call__')
+m('c17-run-before-persist', 'C17', PC, "        proc = proc_class(*init_args, **init_kwargs)\n        if persist and self._persister is not None:\n            self._persister.save_checkpoint(proc)\n\n        if nowait:\n            # XXX: can return a reference and gracefully use task to cancel itself when the upper call stack fails\n            asyncio.ensure_future(proc.step_until_terminated())  # noqa: RUF006\n            return proc.pid\n\n        await proc.step_until_terminated()\n\n        return proc.future().result()\n\n    async def _continue",
+  "        proc = proc_class(*init_args, **init_kwargs)\n\n        if nowait:\n            # XXX: can return a reference and gracefully use task to cancel itself when the upper call stack fails\n            asyncio.ensure_future(proc.step_until_terminated())  # noqa: RUF006\n            if persist and self._persister is not None:\n                self._persister.save_checkpoint(proc)\n            return proc.pid\n\n        await proc.step_until_terminated()\n        if persist and self._persister is not None:\n            self._persister.save_checkpoint(proc)\n\n        return proc.future().result()\n\n    async def _continue", 'fire', '_launch')
+m('c17-default-loader-used', 'C17', PC, "        proc_class = self._loader.load_object(process_class)\n        proc = proc_class(*init_args, **init_kwargs)\n        if persist and self._persister is not None:\n            self._persister.save_checkpoint(proc)\n\n        return proc.pid", "        proc_class = loaders.get_object_loader().load_object(process_class)\n        proc = proc_class(*init_args, **init_kwargs)\n        if persist and self._persister is not None:\n            self._persister.save_checkpoint(proc)\n\n        return proc.pid", 'fire', '_create')
+m('c17-nowait-inverted', 'C17', PC, "        proc = cast('Process', saved_state.unbundle(self._load_context))\n\n        if nowait:", "        proc = cast('Process', saved_state.unbundle(self._load_context))\n\n        if not nowait:", 'fire', '_continue')
+m('c17-loader-not-in-context', 'C17', PC, "            self._loader = loader\n            self._load_context = self._load_context.copyextend(loader=loader)", "            self._loader = loader", 'fire', 'ProcessLauncher.__init__')
+m('c17-continue-without-persister-proceeds', 'C17', PC, "            raise communications.TaskRejected('Cannot continue process, no persister')", "            return None", 'fire', '_continue')
+m('c17-launch-body-persist-dropped', 'C17', PC, "            PROCESS_CLASS_KEY: loader.identify_object(process_class),\n            PERSIST_KEY: persist,\n            NOWAIT_KEY: nowait,", "            PROCESS_CLASS_KEY: loader.identify_object(process_class),\n            PERSIST_KEY: False,\n            NOWAIT_KEY: nowait,", 'fire', 'create_launch_body')
+m('c17-silent-log-message', 'C17', PC, "            LOGGER.warning('rejecting task: cannot continue process<%d> because no persister is available', pid)", "            LOGGER.warning('rejecting continue task for process<%s>: no persister', pid)", 'silent')
